@@ -40,6 +40,17 @@ def check(a):
     fn, kind = a['fn'], a.get('kind', '')
     neg = kind.endswith('-neg')
     msgs = []
+    if kind.startswith('hp') and 'q' not in a:
+        # no concrete value came with the witness (the path ended in an operation the F-model does not encode): stress set of
+        # 13-decimal values - sub-arc-second magnitudes (scientific notation in repr), digit-boundary doubles, field limits
+        valid = [5 * 10 ** 8, 1, 125, 17 * 10 ** 7, 3 * 10 ** 12, 20100000000000, 641100000000000, 5959 * 10 ** 9 + 999999999, 1795959 * 10 ** 9,
+                 12 * 10 ** 13 + 3456 * 10 ** 9 + 789000000, 10 ** 9, 59 * 10 ** 11]
+        invalid = [6 * 10 ** 12, 12 * 10 ** 13 + 60 * 10 ** 11, 60 * 10 ** 9, 12 * 10 ** 13 + 3460 * 10 ** 9, 99 * 10 ** 11, 5961 * 10 ** 9]
+        for q in (valid if 'invalid' not in kind else invalid):
+            bad, msg = check(dict(a, q=q))
+            if bad:
+                return bad, msg
+        return False, '%s: stress set ok' % fn
     if kind.startswith('hp'):
         q = int(a.get('q', 20100000000000))
         x = float(F(q, 10 ** 13))
@@ -48,9 +59,9 @@ def check(a):
         xs = -x if neg else x
         try:
             r = A.HPAngle(xs) if fn == 'HPAngle' else getattr(A, fn)(xs)
-        except ValueError as ex:
+        except Exception as ex:  # noqa - any exception on valid input is a rejection
             if valid:
-                return True, '%s(%r) raises %s although %d deg %02d min %s sec is valid HP' % (fn, xs, ex, deg, mm, float(F(ss, 10 ** 9)))
+                return True, '%s(%r) raises %s: %s although %d deg %02d min %s sec is valid HP' % (fn, xs, type(ex).__name__, ex, deg, mm, float(F(ss, 10 ** 9)))
             return False, 'invalid HP rejected'
         if not valid:
             return True, '%s(%r) accepts an HP value whose fields are %d min %s sec' % (fn, xs, mm, float(F(ss, 10 ** 9)))
